@@ -628,3 +628,23 @@ def run(prog: Program, chk: Check):
         H.decide(tr is not None, fkey(runf, c), where(runf, c), "accept is inside a try", "accept() is outside any try")
     chk.units.update({"uncaught_region_functions": len(region), "partial_primitive_sinks": sinks, "container_loops": nloops, "socket_sites": nH,
                       "counter_key_taint": counter_key_taint})
+
+    # ---- V the service loop runs with field validation off, unconditionally -----------------------------------------------------
+    # The manager copies client-supplied values (names, ids) into the fields of the messages it builds (CLIENT_INFO, ACTIVE_CLIENTS,
+    # FAILED_MESSAGE...).  With validation on, a value the wire format allows but the validator refuses (a 32-byte name without NUL)
+    # raises ValueError inside run(), where nothing catches it: one client ends the manager.  So the loop must sit inside
+    # `with disable_message_validation():` and that block must not be switchable (ignore=<option> re-enables validation).
+    V = chk.rule("C03-V", "MessageManager.run services its clients inside an unconditional disable_message_validation() block", 1,
+                 "with validation re-enabled (e.g. in debug mode) a client-supplied name that fills its field raises ValueError out of run()")
+    blocks = [(w, it.context_expr) for w in walk_local(runf.node) if isinstance(w, ast.With) for it in w.items
+              if isinstance(it.context_expr, ast.Call) and norm(it.context_expr.func).split(".")[-1] == "disable_message_validation"]
+    if not blocks:
+        V.bad(fkey(runf, "validation-off"), where(runf), "run() does not disable message validation around its service loop")
+    svc = [c for c in calls_in(runf.node) if self_call("process_message")(c) or self_call("read_message")(c)]
+    for w, ce in blocks:
+        ig = [k.value for k in ce.keywords if k.arg == "ignore"] + list(ce.args[:1])
+        uncond = not ig or all(isinstance(v, ast.Constant) and not v.value for v in ig)
+        covers = bool(svc) and all(any(a is w for a in ancestors(c)) for c in svc)
+        V.decide(uncond and covers, fkey(runf, "validation-off"), where(runf, w), "the whole service loop runs with validation off, whatever the options",
+                 "run(): " + (f"validation is re-enabled when `{norm(ig[0])}` is true: a client-supplied value refused by a validator raises out of the service loop" if not uncond
+                              else "process_message / read_message are called outside the disable_message_validation() block"))
